@@ -20,6 +20,7 @@ import (
 	"encoding/json"
 	"fmt"
 	mbig "math/big"
+	"strings"
 	"testing"
 	"time"
 
@@ -139,7 +140,9 @@ type c10Cor struct {
 
 func c10Corruptions(world, other *rvWorld, base *Update) []c10Cor {
 	var cs []c10Cor
-	add := func(class, desc string, light bool, f func(u *Update)) { cs = append(cs, c10Cor{class, desc, f, light}) }
+	add := func(class, desc string, light bool, f func(u *Update)) {
+		cs = append(cs, c10Cor{class, desc, f, light})
+	}
 	n := len(base.Events)
 	for i := 0; i < n; i++ {
 		i := i
@@ -216,7 +219,7 @@ func c10Corruptions(world, other *rvWorld, base *Update) []c10Cor {
 func TestVerifC10(t *testing.T) {
 	r := vkit.Start(t, "C10", "update-corruptions", 240*time.Second, 1500*time.Second)
 	defer r.Finish()
-	r.Rule = "base updates with 0,1,4,8,9 events of a 8-revocation history; every single corruption of the menu (event value/index +-1, swaps, delete/duplicate/insert, every byte flip / truncation length / extension / algorithm code / shorter well-formed digest of every parent hash, every byte of the signed accumulator blob, key counter +-1, accumulator substituted by every other validly signed one or by another key's, foreign events), thorough: every pair from the reduced menu; x transport {memory, JSON, CBOR} x operations {Update.Verify, Witness.Update on witnesses just before / inside / at / ahead of the message's window incl. re-signed accumulators with a later time, Update.Prepend, EventList.Verify}; non-trivial = corruption whose received message differs from the base; oracle: independent validator - success => authentic, rejection => receiver state unchanged"
+	r.Rule = "base updates with 0,1,4,8,9 events of a 8-revocation history; every single corruption of the menu (event value/index +-1, swaps, delete/duplicate/insert, every byte flip / truncation length / extension / algorithm code / shorter well-formed digest of every parent hash, every byte of the signed accumulator blob, key counter +-1, accumulator substituted by every other validly signed one or by another key's, foreign events), thorough: every pair from the reduced menu; x transport {memory, JSON, CBOR, and JSON / CBOR with the corruption made on the decoded object} x operations {Update.Verify, Witness.Update on witnesses just before / inside / at / ahead of the message's window incl. re-signed accumulators with a later time, Update.Prepend, EventList.Verify}; non-trivial = corruption whose received message differs from the base; oracle: independent validator - success => authentic, rejection => receiver state unchanged"
 	rvInstallEnv(t, "C10", r.Seed)
 	sk, pk := rvKeys(32, 7)
 	sk2, pk2 := rvKeys(32, 7)
@@ -233,7 +236,7 @@ func TestVerifC10(t *testing.T) {
 		dt   int64 // the accumulator is (re-)signed dt seconds later than the one witnesses are issued against
 	}
 	bases := []baseSpec{{1, H, 0}, {5, H, 0}, {H, H, 0}, {0, H, 0}, {H + 1, H, 0}, {2, 5, 0}, {5, H, 10}, {H + 1, H, 10}}
-	forms := []string{"memory", "json", "cbor"}
+	forms := []string{"memory", "json", "cbor", "json>corrupt", "cbor>corrupt"}
 	for bi, bs := range bases {
 		base := world.Window(bs.a, bs.b, bs.dt)
 		cors := c10Corruptions(world, other, base)
@@ -275,7 +278,28 @@ func TestVerifC10(t *testing.T) {
 			}
 			for _, form := range forms {
 				var recv *Update
+				// received() yields the message object as the receiver holds it.  For the plain forms the
+				// corruption happens before transport; for "<form>>corrupt" the authentic message is
+				// transported first and the decoded object is corrupted in place (whatever decoding left in
+				// unexported fields of the events stays), e.g. by a component between decoder and verifier.
+				received := func() *Update {
+					if strings.HasSuffix(form, ">corrupt") {
+						out, err := c10Transport(c10Wire(base), strings.TrimSuffix(form, ">corrupt"))
+						if err != nil {
+							return nil
+						}
+						for _, c := range combo {
+							c.f(out)
+						}
+						return out
+					}
+					return c10Wire(recv)
+				}
 				pan, msg := vkit.Guard(func() {
+					if strings.HasSuffix(form, ">corrupt") {
+						recv = received()
+						return
+					}
 					u := c10Wire(base)
 					for _, c := range combo {
 						c.f(u)
@@ -301,7 +325,10 @@ func TestVerifC10(t *testing.T) {
 				r.Eval()
 				var acc *Accumulator
 				var err error
-				u1 := c10Wire(recv)
+				var u1 *Update
+				if pan, _ := vkit.Guard(func() { u1 = received() }); pan || u1 == nil {
+					continue
+				}
 				if pan, msg := vkit.Guard(func() { acc, err = u1.Verify(pk) }); pan {
 					r.Count("panic in Update.Verify (not success)", 1)
 					_ = msg
@@ -362,7 +389,10 @@ func TestVerifC10(t *testing.T) {
 					r.Eval()
 					w := world.Witness(pos, rvPrime(0))
 					before := rvSnapshot(w)
-					u2 := c10Wire(recv)
+					var u2 *Update
+					if pan, _ := vkit.Guard(func() { u2 = received() }); pan || u2 == nil {
+						continue
+					}
 					var uerr error
 					if pan, _ := vkit.Guard(func() { uerr = w.Update(pk, u2) }); pan {
 						r.Count("panic in Witness.Update (not success)", 1)
